@@ -137,11 +137,11 @@ CHECKS = {
         "technique": "explicit-state bounded model checking of histories with verifier passes and reopen-time orphan clean-up (file-presence invariant + read-back), plus exhaustive crash points inside verifier passes and trash moves",
         "design_ref": "DESIGN.md 4 (C08)",
         "jobs": {
-            "quick": [tree("C08", 4, 3, alphabet=ING_STALL), seq("C08", 5), {"ws": "harness", "bin": "crash_store", "args": ["--prop", "C08", "--depth", 3, "--cfgs", "A-min", "--no-faults"], "timeout": 3000}],
-            "thorough": [tree("C08", 6, 4, ["--min-depth", 5, "--budget", 1800], alphabet=ING_STALL), seq("C08", 6), {"ws": "harness", "bin": "crash_store", "args": ["--prop", "C08", "--depth", 4, "--cfgs", "A-min,B-l0", "--no-faults"], "timeout": 6000}],
+            "quick": [{"ws": "loomh", "bin": "loom_kvs", "args": ["--prop", "C08"], "timeout": 1200}, tree("C08", 4, 3, alphabet=ING_STALL), seq("C08", 5), {"ws": "harness", "bin": "crash_store", "args": ["--prop", "C08", "--depth", 3, "--cfgs", "A-min", "--no-faults"], "timeout": 3000}],
+            "thorough": [{"ws": "loomh", "bin": "loom_kvs", "args": ["--prop", "C08"], "timeout": 10000}, tree("C08", 6, 4, ["--min-depth", 5, "--budget", 1800], alphabet=ING_STALL), seq("C08", 6), {"ws": "harness", "bin": "crash_store", "args": ["--prop", "C08", "--depth", 4, "--cfgs", "A-min,B-l0", "--no-faults"], "timeout": 6000}],
         },
         "text": "Every history of <= d steps over writes, flush, compaction, compact-until-idle, reopen and verifier passes: after the last step every SST the live version lists must be present in sst/, and all point reads must match the model (so a verifier pass or orphan clean-up that removed a needed file is seen at the next reopen/read). The crash explorer additionally cuts every verifier pass, compaction and reopen at every system call (both persistence models), reopens and reads back.",
-        "note": "Reader snapshots held across retirement are C07's business; log files needed for unreplayed writes are covered by the read-back after reopen. A further job runs the same oracles on a bare LsmTree fed through LsmTree::ingest with externally built SSTs (ten file shapes: single puts and tombstones, whole-range files, a 5 KiB value, two versions of a key in one file; timestamps grow with the step), compaction steps, reopen and verifier passes, from the empty tree and from four seeded states (stacked oldest levels with and without a pending level-0 file, a lower-level file whose timestamps straddle an overlapping upper-level file, before and after reopening). Where the alphabet says so (C01 C04 C08 C20) it also contains two file shapes whose timestamp range straddles earlier files and ingests that park on the level-0 stall (helper thread, completed by whichever later compaction step makes room; a parked flush F! does the same for the store subject): the interplay of a stalled writer with compactions and GCs is then part of the sequential state space.",
+        "note": "Reader snapshots held across retirement are C07's business; log files needed for unreplayed writes are covered by the read-back after reopen. A further job runs the same oracles on a bare LsmTree fed through LsmTree::ingest with externally built SSTs (ten file shapes: single puts and tombstones, whole-range files, a 5 KiB value, two versions of a key in one file; timestamps grow with the step), compaction steps, reopen and verifier passes, from the empty tree and from four seeded states (stacked oldest levels with and without a pending level-0 file, a lower-level file whose timestamps straddle an overlapping upper-level file, before and after reopening). Where the alphabet says so (C01 C04 C08 C20) it also contains two file shapes whose timestamp range straddles earlier files and ingests that park on the level-0 stall (helper thread, completed by whichever later compaction step makes room; a parked flush F! does the same for the store subject): the interplay of a stalled writer with compactions and GCs is then part of the sequential state space. Concurrency: loom_kvs --prop C08 runs a merging compaction (two level-0 files whose timestamps interleave) against one or two concurrent ingests on a bare LsmTree, every interleaving up to the completed preemption bound; afterwards every file of the live tree must be in sst/, the tree must reopen from its manifest, and every acknowledged ingest must be readable before and after the reopen.",
     },
     "C13": {
         "level": "model_checking",
@@ -284,7 +284,7 @@ ENGINES = [
     {"name": "codecmc", "path": "harness/codecmc", "serves_properties": ["C15"], "kind_free_text": "bounded-exhaustive input enumeration for buffertk/prototk against an independent wire codec"},
     {"name": "crashmc", "path": "harness/crashmc", "serves_properties": ["C02", "C04", "C08"],
      "kind_free_text": "syscall journal by in-binary libc interposition, crash-image reconstruction, loss variants, single-fault injection"},
-    {"name": "loomh", "path": "loomh", "serves_properties": ["C06", "C07", "C12", "C17", "C18", "C20"],
+    {"name": "loomh", "path": "loomh", "serves_properties": ["C02", "C06", "C07", "C08", "C12", "C17", "C18", "C20"],
      "kind_free_text": "loom (vendored, patched DPOR dependency tracking) over the real concurrent code, one child process per configuration, iterative preemption bounding"},
     {"name": "seqmc", "path": "harness/seqmc", "serves_properties": ["C01", "C03", "C04", "C05", "C06", "C07", "C08", "C20"],
      "kind_free_text": "bounded exhaustive exploration of operation sequences on the real lsmtk store, single-stepped background loops; sched_store: real threads under a cooperative scheduler at named points, preemption-bounded DFS"},
